@@ -297,6 +297,8 @@ class Ctx:
         for f in self.known_seen:
             print(f"KNOWN-FINDING: property={self.pid} {f['key']}: {f['what']}")
         rdir = os.path.join(VERIF, "replay", self.pid)
+        if REPO != "/repo":
+            rdir = os.path.join(self.work, "replay_scratch_repo")
         os.makedirs(rdir, exist_ok=True)
         for i, v in enumerate(self.violations):
             path = os.path.join(rdir, f"{self.tier}_{self.seed}_{i}.json")
